@@ -34,18 +34,55 @@ def _with_private_helpers(prog: Program, fi: FuncInfo, ci) -> List[FuncInfo]:
     return out
 
 
+def _direct_callees(prog: Program, f: FuncInfo) -> List[FuncInfo]:
+    """Package functions a function calls directly by name (module-level functions, also imported ones) or through
+    self./cls. (methods of its class)."""
+    out = []
+    for n in _calls(f):
+        g = None
+        if isinstance(n.func, ast.Name):
+            r = prog.resolve_global(f.module, n.func.id)
+            if r and r[0] == "func":
+                g = r[1]
+        elif isinstance(n.func, ast.Attribute) and isinstance(n.func.value, ast.Name) and n.func.value.id in ("self", "cls") \
+                and f.cls is not None:
+            g = prog.lookup(f.cls, n.func.attr)
+        elif isinstance(n.func, ast.Attribute) and isinstance(n.func.value, ast.Name):
+            r = prog.resolve_global(f.module, n.func.value.id)
+            if r and r[0] == "module" and r[1] in prog.modules:        # module.function(...)
+                r2 = prog.resolve_global(prog.modules[r[1]], n.func.attr)
+                if r2 and r2[0] == "func":
+                    g = r2[1]
+        if g is not None and getattr(g, "node", None) is not None and not any(g is x for x in out):
+            out.append(g)
+    return out
+
+
+def _reaches(prog: Program, f: FuncInfo, pred, depth=4) -> bool:
+    seen, todo = [], [(f, 0)]
+    while todo:
+        g, d = todo.pop(0)
+        if any(g is x for x in seen):
+            continue
+        seen.append(g)
+        if pred(g):
+            return True
+        if d < depth:
+            todo.extend((h, d + 1) for h in _direct_callees(prog, g))
+    return False
+
+
 def unit_creator(prog: Program) -> FuncInfo:
-    """The metaclass method through which new_unit creates units (today: QuantityMeta._make_unit): the function,
-    reached from QuantityMeta.new_unit through calls on the class, that allocates the unit object (a raw
-    `__new__` call) - wherever in new_unit the call sits."""
+    """The metaclass method through which new_unit creates units (today: QuantityMeta._make_unit): the private method
+    of the metaclass, called from QuantityMeta.new_unit on the class, from which the allocation of the unit object
+    (a raw `__new__` call) is reached - wherever in new_unit the call sits and however deep the allocation is."""
     nu = prog.method("QuantityMeta", "new_unit")
     qm = prog.cls("QuantityMeta")
 
     def allocates(f: FuncInfo) -> bool:
         return any(isinstance(n.func, ast.Attribute) and n.func.attr == "__new__" for n in _calls(f))
-    reach = _with_private_helpers(prog, nu, qm)
-    for f in reach[1:]:
-        if allocates(f):
+    for f in _with_private_helpers(prog, nu, qm)[1:]:
+        if _reaches(prog, f, allocates):
             return f
     if allocates(nu):
         return nu
@@ -93,24 +130,51 @@ def factor_method(prog: Program) -> FuncInfo:
     raise AnalysisError("anchor vanished: conversion-factor method used by Quantity.equiv_amount")
 
 
+def _is_registry_global(prog: Program, module, name: str) -> bool:
+    r = prog.resolve_global(module, name)
+    if not r or r[0] != "expr" or not isinstance(r[2], ast.Call):
+        return False
+    f = r[2].func
+    base = f.value if isinstance(f, ast.Subscript) else f
+    if not isinstance(base, ast.Name):
+        return False
+    t = prog.resolve_global(r[1], base.id)
+    if t and t[0] == "expr" and isinstance(t[2], ast.Subscript) and isinstance(t[2].value, ast.Name):
+        t = prog.resolve_global(t[1], t[2].value.id)
+    return bool(t and t[0] == "class" and t[1].name == "DefinedItemRegistry")
+
+
 def term_resolver(prog: Program) -> FuncInfo:
-    """The module function Unit.__mul__ uses to resolve a unit term to (factor, unit)
-    (today: _amnt_and_unit_from_term)."""
+    """The function Unit.__mul__ uses to resolve a unit term to (factor, unit) (today: _amnt_and_unit_from_term):
+    the first function on the way from Unit.__mul__ (breadth first over the calls it makes) that takes a term and
+    from which a look-up in the term -> unit directory (a registry object at module level) is reached."""
     um = prog.method("Unit", "__mul__")
-    mod = prog.modules["quantity"]
-    in_try, anywhere = [], []
-    for fi in _with_private_helpers(prog, um, prog.cls("Unit")):
-        for n in ast.walk(fi.node):
-            if isinstance(n, ast.Try):
-                for c in ast.walk(ast.Module(body=n.body, type_ignores=[])):
-                    if isinstance(c, ast.Call) and isinstance(c.func, ast.Name) and c.func.id in mod.functions:
-                        in_try.append(mod.functions[c.func.id])
-            elif isinstance(n, ast.Call) and isinstance(n.func, ast.Name) and n.func.id in mod.functions and \
-                    n.func.id.startswith("_"):
-                anywhere.append(mod.functions[n.func.id])
-    cands = in_try or anywhere
-    if cands:
-        return cands[0]
+
+    def reads_directory(f: FuncInfo) -> bool:
+        for n in ast.walk(f.node):
+            if isinstance(n, ast.Subscript) and isinstance(n.value, ast.Name) and _is_registry_global(prog, f.module, n.value.id):
+                return True
+        return False
+
+    def takes_term(f: FuncInfo) -> bool:
+        a = f.node.args
+        params = a.posonlyargs + a.args
+        if f.cls is not None and params:
+            params = params[1:]
+        if len(params) != 1:
+            return False
+        ann = src_of(params[0].annotation) if params[0].annotation is not None else params[0].arg
+        return any(k in ann for k in ("Term", "DefT", "term"))
+    seen, todo = [], [(um, 0)]
+    while todo:
+        g, d = todo.pop(0)
+        if any(g is x for x in seen):
+            continue
+        seen.append(g)
+        if g is not um and g.cls is None and takes_term(g) and _reaches(prog, g, reads_directory, depth=3):
+            return g
+        if d < 4:
+            todo.extend((h, d + 1) for h in _direct_callees(prog, g))
     raise AnalysisError("anchor vanished: term resolution helper used by Unit.__mul__")
 
 
@@ -179,3 +243,71 @@ def converter_registry_attr(prog: Program) -> str:
         raise AnalysisError(f"anchor vanished: the class attribute shared by register_converter / remove_converter / "
                             f"registered_converters (candidates: {sorted(common or ())})")
     return next(iter(common))
+
+
+def symbol_directories(prog: Program):
+    """Names of the module-level directories into which unit creation stores the new unit under a key (today:
+    _SYMBOL_UNIT_MAP): item stores into a module-level name by the unit creator or a function it reaches."""
+    cached = getattr(prog, "_symbol_dirs", None)
+    if cached is not None:
+        return cached
+    mk = unit_creator(prog)
+    seen, todo, names = [], [(mk, 0)], set()
+    while todo:
+        f, d = todo.pop(0)
+        if any(f is x for x in seen):
+            continue
+        seen.append(f)
+        a = f.node.args
+        params = {p.arg for p in a.posonlyargs + a.args + a.kwonlyargs}
+        for n in ast.walk(f.node):
+            tgts = []
+            if isinstance(n, ast.Assign):
+                tgts = n.targets
+            elif isinstance(n, ast.Call) and isinstance(n.func, ast.Attribute) and n.func.attr == "setdefault":
+                tgts = [ast.Subscript(value=n.func.value, slice=ast.Constant(0), ctx=ast.Store())]
+            for t in tgts:
+                if isinstance(t, ast.Subscript) and isinstance(t.value, ast.Name) and t.value.id not in params:
+                    r = prog.resolve_global(f.module, t.value.id)
+                    if r and r[0] == "expr" and (isinstance(r[2], ast.Dict) or (isinstance(r[2], ast.Call) and
+                                                                               src_of(r[2].func) == "dict")):
+                        names.add(t.value.id)
+        if d < 3:
+            todo.extend((g, d + 1) for g in _direct_callees(prog, f))
+    prog._symbol_dirs = names
+    return names
+
+
+def creator_args(prog: Program, creator: FuncInfo, caller: FuncInfo):
+    """-> build(cls, symbol, name, definition) -> (args, kwargs) for a private unit-creating method, in the order and
+    under the keywords its public caller uses: the caller's own parameters `symbol` and `name` are API; whatever else
+    it passes is the definition."""
+    call = None
+    for n in _calls(caller):
+        if isinstance(n.func, ast.Attribute) and n.func.attr == creator.name and isinstance(n.func.value, ast.Name) \
+                and n.func.value.id in ("cls", "self"):
+            call = n
+    if call is None:
+        raise AnalysisError(f"anchor vanished: call of {creator.qualname} in {caller.qualname}")
+
+    def role(e):
+        if isinstance(e, ast.Name) and ("symbol" in e.id):
+            return "symbol"
+        if isinstance(e, ast.Name) and ("name" in e.id):
+            return "name"
+        return "definition"
+    pos = [role(a) for a in call.args]
+    kws = {k.arg: role(k.value) for k in call.keywords if k.arg}
+
+    def build(cls, symbol, name, definition):
+        vals = {"symbol": symbol, "name": name, "definition": definition}
+        return [cls] + [vals[r] for r in pos], {k: vals[r] for k, r in kws.items()}
+    return build
+
+
+def unit_creator_args(prog: Program):
+    return creator_args(prog, unit_creator(prog), prog.method("QuantityMeta", "new_unit"))
+
+
+def ref_unit_creator_args(prog: Program):
+    return creator_args(prog, ref_unit_creator(prog), prog.method("QuantityMeta", "__new__"))
